@@ -859,6 +859,8 @@ func init() {
 				add("zset-btree-k3", p("k", 3, "keys", 1, "cmds", cZAdd|cZScore|cDel, "index", 1, "nscores", 2))
 				add("zset-close-scores-k3", p("k", 3, "keys", 1, "cmds", cZAdd|cZScore, "scoreset", 1, "nscores", 2))
 				add("string-negative-ttl-k3", p("k", 3, "keys", 1, "cmds", cSet|cGet|cType|cHSet|cLPush|cRestart, "negttl", 1))
+				// a 6-byte member with arbitrary bytes next to a 1-byte one (known finding: member key vs score key)
+				add("zset-arbitrary-6-byte-member-k2", p("k", 2, "keys", 1, "cmds", cZAdd|cZScore, "longmember", 1, "nscores", 3))
 				add("set-type-k3", p("k", 3, "keys", 1, "cmds", cSAdd|cSRem|cSIsMember|cDel|cType|cSet))
 				add("all-types-merge-restart-k3", p("k", 3, "keys", 1, "cmds", cSet|cGet|cHSet|cHGet|cSAdd|cSIsMember|cLPush|cLPop|cZAdd|cZScore|cRestart, "mergerestart", 1, "nscores", 1))
 				// empty values and the empty field/member name are values/names like any other
